@@ -32,7 +32,7 @@ CLAIMS = {
             TECH_V, "§3 C02"),
     "C03": ("model_checking",
             "update_route_schedule (schedules, totals, latest-arrival and waiting states) equals an independent forward/backward replay from the bare tour, bit-equal, from any cache content - "
-            "bounded (<= 2 job activities, integer-valued times). total cost == sum over tours of vehicle and driver parts (U03b, bounded); reported Statistic sums add field by field (U03c, Verus). Writer/rounding/place-tag clauses are not decided." + GLUE,
+            "bounded (<= 2 job activities, integer-valued times). total cost == sum over tours of vehicle and driver parts (U03b, bounded); reported Statistic sums add field by field (U03c, Verus). Place tags: job_reader::get_single (verbatim, U03d, bounded <= 3 places) stores every tag with the index of its own place and builds place i from input place i. Writer/rounding clauses are not decided." + GLUE,
             "Bounded Kani harnesses (stated bounds); stub environment; get_total_cost (U03b, bounded) and the Statistic sum (U03c, Verus) are under contract, solution_writer::create_tour is NOT.",
             TECH_K + " (bounded)", "§3 C03"),
     "C04": ("proof",
